@@ -1,13 +1,140 @@
+// nscheck decides the structural obligations of one property of /verif/properties.jsonl
+// from the source of /repo's working tree. It never executes numscript code.
 package main
 
 import (
-	_ "golang.org/x/tools/go/callgraph/cha"
-	_ "golang.org/x/tools/go/callgraph/vta"
-	_ "golang.org/x/tools/go/cfg"
-	_ "golang.org/x/tools/go/packages"
-	_ "golang.org/x/tools/go/ssa"
-	_ "golang.org/x/tools/go/ssa/ssautil"
-	_ "golang.org/x/tools/go/types/typeutil"
+	"encoding/json"
+	"flag"
+	"fmt"
+	"os"
+	"path/filepath"
+	"runtime/debug"
+	"sort"
+	"strconv"
+
+	"nsa/core"
+	"nsa/props"
+	"nsa/rules"
 )
 
-func main() {}
+func main() {
+	prop := flag.String("prop", "", "property id (C01..C20)")
+	tier := flag.String("tier", "quick", "quick|thorough")
+	repo := flag.String("repo", "/repo", "repository to analyse")
+	verif := flag.String("verif", "", "verif directory (default: parent of the binary's dir)")
+	explain := flag.String("explain", "", "print a violation report file")
+	verbose := flag.Bool("v", false, "print every instance")
+	list := flag.Bool("list", false, "list known properties")
+	flag.Parse()
+
+	if *verif == "" {
+		exe, _ := os.Executable()
+		*verif = filepath.Dir(filepath.Dir(exe))
+		if _, err := os.Stat(filepath.Join(*verif, "properties.jsonl")); err != nil {
+			*verif = "/verif"
+		}
+	}
+	if *explain != "" {
+		explainFile(*explain)
+		return
+	}
+	if *list {
+		var ids []string
+		for id := range props.Registry {
+			ids = append(ids, id)
+		}
+		sort.Strings(ids)
+		for _, id := range ids {
+			fmt.Println(id)
+		}
+		return
+	}
+	if t := os.Getenv("VERIF_TIER"); t != "" && !isFlagSet("tier") {
+		*tier = t
+	}
+	seed, _ := strconv.ParseInt(os.Getenv("VERIF_SEED"), 10, 64)
+	spec, ok := props.Registry[*prop]
+	if !ok {
+		fmt.Fprintf(os.Stderr, "unknown property %q\n", *prop)
+		os.Exit(2)
+	}
+	rep := core.NewReport(*prop, *tier, seed)
+	known, kerr := core.LoadKnown(filepath.Join(*verif, "known_findings.json"))
+	if kerr != nil {
+		fmt.Fprintln(os.Stderr, "known_findings.json:", kerr)
+	}
+
+	configs := []core.Config{{Repo: *repo}}
+	if *tier == "thorough" {
+		configs = append(configs, core.Config{Repo: *repo, GOARCH: "386"}, core.Config{Repo: *repo, Tags: "verif"})
+	}
+	code := func() (code int) {
+		defer func() {
+			if r := recover(); r != nil {
+				// a crash of the analyser is "undecided", never a silent pass
+				ob := rep.Ob("analyser", "internal", "the analyser completes", 0)
+				ob.Unknown("analyser-panic", "-", fmt.Sprintf("%v\n%s", r, debug.Stack()))
+				code = rep.Finish(*verif, known)
+			}
+		}()
+		for _, cfg := range configs {
+			p, err := core.Load(cfg)
+			if err != nil {
+				ob := rep.Ob("load", "loader", "every package of the module loads and type-checks from the working tree", 1)
+				ob.Unknown("load:"+cfg.String(), "-", err.Error())
+				continue
+			}
+			rep.Configs = append(rep.Configs, fmt.Sprintf("%s packages=%d", cfg.String(), len(p.Pkgs)))
+			ob := rep.Ob("load", "loader", "every package of the module loads and type-checks from the working tree", 1)
+			ob.Pass("load:"+cfg.String(), "-", fmt.Sprintf("%d module packages, %d total", len(p.Pkgs), len(p.All)))
+			ctx := rules.NewCtx(p, rep, *tier)
+			spec.Run(ctx)
+		}
+		rep.Explanation = spec.Explanation
+		rep.NotDecided = spec.NotDecided
+		rep.Assumptions = spec.Assumptions
+		return rep.Finish(*verif, known)
+	}()
+	if *verbose {
+		for _, o := range rep.Obligations {
+			fmt.Printf("== %s [%s] %s (floor %d)\n", o.ID, o.Rule, o.Statement, o.Floor)
+			for _, in := range o.Instances {
+				fmt.Printf("   %-14s %s  %s  %s\n", in.Verdict, in.Construct, in.Pos, in.Why)
+			}
+		}
+	}
+	os.Exit(code)
+}
+
+func isFlagSet(name string) bool {
+	set := false
+	flag.Visit(func(f *flag.Flag) {
+		if f.Name == name {
+			set = true
+		}
+	})
+	return set
+}
+
+func explainFile(path string) {
+	b, err := os.ReadFile(path)
+	if err != nil {
+		fmt.Fprintln(os.Stderr, err)
+		os.Exit(2)
+	}
+	var v struct {
+		Property   string          `json:"property_id"`
+		Violations []core.Instance `json:"violations"`
+	}
+	if err := json.Unmarshal(b, &v); err != nil {
+		fmt.Fprintln(os.Stderr, err)
+		os.Exit(2)
+	}
+	for _, in := range v.Violations {
+		fmt.Printf("property %s, obligation %s, rule %s\n  construct: %s\n  at: %s\n  %s: %s\n", v.Property, in.Obligation, in.Rule, in.Construct, in.Pos, in.Verdict, in.Why)
+	}
+	if len(v.Violations) > 0 {
+		fmt.Printf("VIOLATION property=%s replay=%s\n", v.Property, path)
+		os.Exit(1)
+	}
+}
